@@ -388,6 +388,15 @@ def r7(ctx):
     skip = [b for b in call_sites(bd, r"ReadCursor::read_u8$") if b.idx in region]
     rst = [b for b in call_sites(bd, r"Parser::reset$") if b.idx in region]
     ctx.check(len(skip) == 1 and len(rst) == 1, "discard-mode:skip-and-reset", "the error arm skips one byte and resets the parser", bd.where(errarm[0].edge[1]))
+    # the byte skipped is the first byte of the frame that failed - which is at the rollback position only when this call STARTED the
+    # frame (state FindSync1 sampled before the transaction). A frame resumed from an earlier read had its leading bytes consumed then:
+    # the byte at the rollback position was never examined as a frame start and may be the 0x05 of a valid frame (F14)
+    for sk in skip:
+        gs_ = [g for g in ctx.guards_at(bd, sk.idx) if g.kind == "is" and g.name == "FindSync1" and g.a[0] == "field" and g.a[2] == "state"]
+        ok_ = bool(gs_) and all(bd.block_dominates(g.edge[0], t.idx) for g in gs_ for t in tx)
+        ctx.check(ok_, "discard-mode:skip-only-unresumed", "the one-byte skip happens only when the failed frame began in this call (state was FindSync1 before the transaction)", bd.where(sk.idx), bad_detail="discard mode skips one byte after EVERY failed parse, also when the failed frame was resumed from a previous read: the first byte of this read (possibly the start of a valid frame) is thrown away unexamined")
+    for r_ in rst:
+        ctx.check(all(not bd.can_reach(errarm[0].edge[1], t.idx, removed_blocks={r_.idx}) for t in tx), "discard-mode:reset-on-every-retry", "every retry after an error starts from FindSync1", bd.where(r_.idx))
     rets = [b for b, si, st, e in ret_sites(bd, sym) if b.idx in region]
     ctx.check(not rets, "discard-mode:no-error-return", "no error escapes Parser::parse in discard mode", bd.where(errarm[0].edge[1]), bad_detail="the Err arm of discard mode returns")
     # and loops back: the arm reaches the loop head
